@@ -1440,6 +1440,9 @@ def r5(ctx, R):
                 else:
                     R.violation("C20.R5", f.short, k, loc(f, c), f"`{Y}` may be the same object as `{X}` (a file that INCLUDEs itself, a scope grafted into itself): the loop then appends to the list it is iterating ({how}) and never ends, growing memory without bound")
     R.notes.append(f"C20.R5: {n} loops whose body grows the iterated field ({snapshots} over a snapshot)")
+    if not any(i.rule == "C20.R5" for i in R.insts):
+        # the graft loop was restructured out of the recognised shape (helper that receives the list as a parameter): no verdict, said so
+        R.undecided("C20.R5", "fortls/parsers", "loops growing the iterated member list", "fortls/parsers", "no loop over an object's member list that grows the same field was recognised")
 
 
 def run(ctx, R):
